@@ -40,6 +40,10 @@ func (m *Dense) Product(factors ...Matrix) {
 		return
 	}
 
+	for _, f := range factors {
+		fU, _ := untransposeExtract(f)
+		m.checkOverlapMatrix(fU)
+	}
 	p := newMultiplier(m, factors)
 	p.optimize()
 	result := p.multiply()
